@@ -5,7 +5,7 @@
    - the counting lemma: the number of written bond orders is half the sum of the neighbour counts
    - the reader invariant for take_nbrs / build_adj. *)
 From Coq Require Import ZArith List Bool Lia ZifyBool Permutation.
-From Model Require Import PyBase Pack.
+From Model Require Import PyBase Pack PackSpec.
 From Gen Require Import Elements.
 From Proofs Require Import PackBits PackRoundtrip.
 Import ListNotations.
@@ -13,68 +13,6 @@ Open Scope Z_scope.
 
 (* ================================================================================================ *)
 (* neighbours, forward bonds *)
-
-Definition nbr := (Z * (Z * option bool))%type.
-Definition nb_m (x : nbr) : Z := fst x.
-Definition nb_ord (x : nbr) : Z := fst (snd x).
-Definition nb_st (x : nbr) : option bool := snd (snd x).
-
-(* the neighbours of an atom that have not been visited: their bond is met for the first time *)
-Definition fwd_nbrs (seen : list Z) (nb : list nbr) : list nbr := filter (fun x => negb (zmem (nb_m x) seen)) nb.
-
-(* (atom, neighbour entry) of every bond in first-encounter order *)
-Fixpoint mol_fwd (seen : list Z) (atoms : list patom) : list (Z * nbr) :=
-  match atoms with
-  | [] => []
-  | a :: r => map (pair (pa_n a)) (fwd_nbrs (pa_n a :: seen) (pa_nbrs a)) ++ mol_fwd (pa_n a :: seen) r
-  end.
-
-Definition is_labelled (x : nbr) : bool := match nb_st x with Some _ => true | None => false end.
-Definition fwd_orders (f : list (Z * nbr)) : list Z := map (fun nx => nb_ord (snd nx) - 1) f.
-Definition fwd_ct (terminals : list (Z * (Z * Z))) (f : list (Z * nbr)) : list (Z * Z * bool) :=
-  flat_map (fun nx => match nb_st (snd nx), zget terminals (fst nx) with
-                      | Some v, Some (tn, tm) => [(tn, tm, v)]
-                      | _, _ => []
-                      end) f.
-Definition fwd_labelled (f : list (Z * nbr)) : list (Z * nbr) := filter (fun nx => is_labelled (snd nx)) f.
-
-Definition mol_conns (atoms : list patom) : list Z := flat_map (fun a => map nb_m (pa_nbrs a)) atoms.
-
-(* what unpack must rebuild *)
-Definition adj_entry (a : patom) : Z * list (Z * Z) := (pa_n a, map (fun x => (nb_m x, nb_ord x)) (pa_nbrs a)).
-
-(* ================================================================================================ *)
-(* well-formedness *)
-
-Definition order_ok (o : Z) : bool := (o =? 1) || (o =? 2) || (o =? 3) || (o =? 4) || (o =? 8).
-Definition find_atom (atoms : list patom) (n : Z) : option patom := find (fun b => pa_n b =? n) atoms.
-
-(* neighbour entry x of atom a: no loop, order in {1,2,3,4,8}, the neighbour is an atom whose own table lists a with the
-   same order *)
-Definition nbr_ok (atoms : list patom) (a : patom) (x : nbr) : bool :=
-  negb (nb_m x =? pa_n a) && order_ok (nb_ord x) &&
-  match find_atom atoms (nb_m x) with
-  | Some b => match zget (pa_nbrs b) (pa_n a) with Some (o', _) => o' =? nb_ord x | None => false end
-  | None => false
-  end.
-
-Definition adj_ok (atoms : list patom) (a : patom) : bool :=
-  nodup_z (map nb_m (pa_nbrs a)) && forallb (nbr_ok atoms a) (pa_nbrs a).
-
-(* an atom with a labelled bond is a key of the terminals table, terminal numbers in range *)
-Definition term_ok (terminals : list (Z * (Z * Z))) (a : patom) : bool :=
-  if existsb is_labelled (pa_nbrs a) then
-    match zget terminals (pa_n a) with
-    | Some (tn, tm) => (0 <=? tn) && (tn <? 4096) && (0 <=? tm) && (tm <? 4096)
-    | None => false
-    end
-  else true.
-
-Definition pack_ok (m : pmol) : bool :=
-  let atoms := pm_atoms m in
-  forallb atom_ok atoms && forallb (fun a => 1 <=? pa_n a) atoms && nodup_z (map pa_n atoms) &&
-  forallb (adj_ok atoms) atoms && forallb (term_ok (pm_terminals m)) atoms &&
-  (pm_ct_count m =? Z.of_nat (length (fwd_labelled (mol_fwd [] atoms)))) && (pm_ct_count m <? 4096).
 
 (* --- Prop versions --- *)
 Lemma nodup_z_NoDup l : nodup_z l = true -> NoDup l.
